@@ -51,7 +51,9 @@ def ns_case(draw):
     bindings, used_p, used_n = [], set(), set()
     for _ in range(n):
         p, ns = draw(names), draw(pool)
-        if p in used_p or ns in used_n or (integration == "rdflib" and not ns):
+        # rdflib keeps one prefix per namespace (its own rule); the generic sink is a prefix -> IRI mapping, so several
+        # prefixes may share a namespace there
+        if p in used_p or (integration == "rdflib" and (ns in used_n or not ns)):
             continue
         used_p.add(p)
         used_n.add(ns)
@@ -109,8 +111,14 @@ def build_source(case):
     return g
 
 
-def truth_of(source, integ):
+def truth_of(source, integ, bindings=None):
     if integ == "generic":
+        if bindings is not None:
+            # ground truth = the bindings handed to sink.bind(): a mapping keyed by prefix, in first-insertion order
+            out = {}
+            for p, ns in bindings:
+                out[p] = ["iri", ns]
+            return [[p, i] for p, i in out.items()]
         out = []
         for p, i in source.namespaces:
             out.append([p, T.from_generic(i)])
@@ -156,7 +164,7 @@ def body_multi(case, acc):
     k = case["split"]
     parts = [dict(case, statements=case["statements"][:k]), dict(case, statements=case["statements"][k:], bindings=case["second_bindings"])]
     sources = [build_source(p) for p in parts]
-    truths = [truth_of(s_, integ) for s_ in sources]
+    truths = [truth_of(s_, integ, p_["bindings"]) for s_, p_ in zip(sources, parts)]
     cfg = dict(case)
     cfg["params"] = dict(case["params"], namespace_declarations=True)
     cfg["delimited"] = True
@@ -195,7 +203,11 @@ def body(case, acc):
     integ = case["integration"]
     source = build_source(case)
     from_gen = case["entry"] == "flat_generator"
-    truth = [] if from_gen else truth_of(source, integ)
+    truth = [] if from_gen else truth_of(source, integ, case["bindings"])
+    if integ == "generic" and not from_gen:
+        held = [[p, T.from_generic(i)] for p, i in source.namespaces]
+        if held != truth:
+            return Violation("C14:sink-loses-bindings", f"bound {truth!r}, the sink reports {held!r}", case)
     as_set = integ == "rdflib" and not from_gen
     # option off
     try:
